@@ -249,7 +249,9 @@ func (m *ReconcilePodENI) podENICreate(ctx context.Context, namespacedName clien
 		}()
 		return m.detach(ctx, podENI)
 	case v1beta1.ENIPhaseDeleting:
-		err = m.client.Delete(ctx, podENI)
+		// delete this very object: the name is reused by the record of the pod's next incarnation, and the
+		// copy read here may be outdated
+		err = m.client.Delete(ctx, podENI, client.Preconditions{UID: &podENI.UID})
 		if err != nil {
 			if k8sErr.IsNotFound(err) {
 				l.Info("cr resource not found")
